@@ -404,8 +404,6 @@ func propPackages(prop string) []loadGroup {
 		return []loadGroup{{[]string{"otp", "api"}, false}}
 	case "C20":
 		return []loadGroup{{[]string{"otp"}, false}, {[]string{"otp", "wasm"}, true}}
-	case "C09":
-		return []loadGroup{{[]string{"otp"}, false}, {[]string{"otp", "wasm"}, true}}
 	}
 	return []loadGroup{{[]string{"otp"}, false}}
 }
